@@ -226,6 +226,22 @@ def initial_trees(chunk):
                 yield model.MT(1, toks, root)
 
 
+MID_PROBES = [((1, 3, 5), 2, 4), ((1, 3), (2, 5), 4), ((1, 4), (2, 5), (3, 6)), ((1, 2, (3, 5)), 4, 6), ((1, 3, 5, 7), 2, 4, 6)]
+
+
+def probe_trees(chunk):
+    """Initial states beyond the exhaustive bound: five 5-7-token hierarchies with three or more blocks /
+    interleaved gaps, and the 11-13-token size probes; no punctuation, both edge patterns."""
+    sh = model.sort_shape((MID_PROBES if chunk['which'] == 'mid' else model.big_shapes())[chunk['i']])
+    n = len(model.leaves(sh))
+    for pattern in (0, 1):
+        root = model.decorate(sh, lambda p, s: LABELS[(sum(p) + len(p)) % len(LABELS)],
+                              (lambda p, s: 'HD' if p[-1] == 0 else '--') if pattern == 0 else (lambda p, s: '--'))
+        tok_edges = ['NK' if i % 2 else '--' for i in range(n)] if pattern == 0 else ['HD' if i % 2 else 'NK' for i in range(n)]
+        yield model.MT(1, model.mk_tokens(n, pos=[POS[i % len(POS)] for i in range(n)], edge=tok_edges,
+                                          words=['w'] * n), root)
+
+
 def plan(tier, seed):
     if tier == 'quick':
         specs = [(1, 2, 1, 4, 1), (2, 2, 2, 4, 1), (3, 1, 2, 4, 4), (4, 1, 1, 4, 4)]
@@ -236,7 +252,12 @@ def plan(tier, seed):
         for c in sweep.shape_chunks([(n, u)], per_chunk=2, maxp=maxp, depth=L, tier=tier):
             for part in range(parts):
                 chunks.append(dict(c, parts=parts, part=part))
+    chunks += [{'kind': 'probe', 'which': 'mid', 'i': i, 'depth': 3 if tier == 'quick' else 4, 'tier': tier}
+               for i in range(len(MID_PROBES))]
+    chunks += [{'kind': 'probe', 'which': 'big', 'i': i, 'depth': 2 if tier == 'quick' else 3, 'tier': tier}
+               for i in range(len(model.big_shapes()))]
     chunks.append({'kind': 'cli'})
+    chunks.append({'kind': 'clipipe'})
     return {
         'chunks': chunks,
         'rule': 'initial states: every hierarchy over n tokens (<= u unary insertions) x every word assignment '
@@ -251,7 +272,9 @@ def plan(tier, seed):
         'explanation': 'states = distinct (canonical tree, prerequisite flags) reached; transitions = real '
                        'transformation calls, each checked by the step invariants; traces = states without '
                        'unexplored successors (every path to them is an implementation trace)',
-        'assumptions': ['canonical form is a sound state abstraction (DESIGN.md §3.4)',
+        'assumptions': ['driver differential (vt/clipipe.py): four structural pipelines with --params, with and without --split, must write what the named functions give when applied by the harness in the given order',
+                        'beyond the bound: BFS (depth %d / %d) also from 5 fixed 5-7-token hierarchies with three blocks or interleaved gaps and from the 11-13-token size probes' % ((3, 2) if tier == 'quick' else (4, 3)),
+                        'canonical form is a sound state abstraction (DESIGN.md §3.4)',
                         'head marks count as present only if no restructuring happened since (prerequisite reading)',
                         'raising is enabled after boyd_split until binarize/collapse/uncollapse rebuild nodes (they carry no split marks)',
                         'a tree collapsed to a bare token only admits uncollapse'],
@@ -370,7 +393,7 @@ def check_cli(program, split):
     got = []
     try:
         for fpath in files:
-            got.extend(codecs.decode_export(open(fpath, encoding='utf-8').read()))
+            got.extend(codecs.decode_export(codecs.read_out(fpath)))
     except codecs.DecodeError as e:
         bad('ill-formed', 'output does not decode: %s' % e)
         return out
@@ -406,6 +429,9 @@ def check_cli(program, split):
 
 
 def check_case(case):
+    if 'clipipe' in case:
+        from .. import clipipe
+        return clipipe.replay(case)
     """Replay one program from its initial tree without the explorer."""
     if 'cli' in case:
         with quiet():
@@ -439,6 +465,11 @@ def check_case(case):
 
 
 def run_chunk(chunk):
+    if chunk.get('kind') == 'clipipe':
+        from .. import clipipe
+        res = Result()
+        clipipe.run_property(ID, res)
+        return res
     res = Result()
     if chunk.get('kind') == 'cli':
         with quiet():
@@ -454,7 +485,10 @@ def run_chunk(chunk):
         res.sample({'cli': 'treetools transform SRC DEST --trans %s [--split 1#_rest]' % ' '.join(CLI_PROGRAMS[0])})
         return res
     with quiet():
-        inits = [m for i, m in enumerate(initial_trees(chunk)) if i % chunk.get('parts', 1) == chunk.get('part', 0)]
+        if chunk.get('kind') == 'probe':
+            inits = list(probe_trees(chunk))
+        else:
+            inits = [m for i, m in enumerate(initial_trees(chunk)) if i % chunk.get('parts', 1) == chunk.get('part', 0)]
         res.evals = len(inits)
         res.nontrivial = sum(1 for m in inits if any(t['word'] != 'w' for t in m.toks)
                              or model.mt_tree_gap_degree(m.root) > 0)
